@@ -7,6 +7,9 @@ theories/Spec/Eval.vos theories/Spec/Eval.vok theories/Spec/Eval.required_vos: t
 theories/Spec/System.vo theories/Spec/System.glob theories/Spec/System.v.beautified theories/Spec/System.required_vo: theories/Spec/System.v theories/Spec/Eval.vo
 theories/Spec/System.vio: theories/Spec/System.v theories/Spec/Eval.vio
 theories/Spec/System.vos theories/Spec/System.vok theories/Spec/System.required_vos: theories/Spec/System.v theories/Spec/Eval.vos
+theories/Model/Btor2Parse.vo theories/Model/Btor2Parse.glob theories/Model/Btor2Parse.v.beautified theories/Model/Btor2Parse.required_vo: theories/Model/Btor2Parse.v theories/Spec/System.vo
+theories/Model/Btor2Parse.vio: theories/Model/Btor2Parse.v theories/Spec/System.vio
+theories/Model/Btor2Parse.vos theories/Model/Btor2Parse.vok theories/Model/Btor2Parse.required_vos: theories/Model/Btor2Parse.v theories/Spec/System.vos
 theories/Model/EvalImpl.vo theories/Model/EvalImpl.glob theories/Model/EvalImpl.v.beautified theories/Model/EvalImpl.required_vo: theories/Model/EvalImpl.v theories/Spec/Eval.vo
 theories/Model/EvalImpl.vio: theories/Model/EvalImpl.v theories/Spec/Eval.vio
 theories/Model/EvalImpl.vos theories/Model/EvalImpl.vok theories/Model/EvalImpl.required_vos: theories/Model/EvalImpl.v theories/Spec/Eval.vos
@@ -19,6 +22,9 @@ theories/Model/Simplify.vos theories/Model/Simplify.vok theories/Model/Simplify.
 theories/Proofs/BVLemmas.vo theories/Proofs/BVLemmas.glob theories/Proofs/BVLemmas.v.beautified theories/Proofs/BVLemmas.required_vo: theories/Proofs/BVLemmas.v theories/Spec/BV.vo
 theories/Proofs/BVLemmas.vio: theories/Proofs/BVLemmas.v theories/Spec/BV.vio
 theories/Proofs/BVLemmas.vos theories/Proofs/BVLemmas.vok theories/Proofs/BVLemmas.required_vos: theories/Proofs/BVLemmas.v theories/Spec/BV.vos
+theories/Proofs/Btor2Witness.vo theories/Proofs/Btor2Witness.glob theories/Proofs/Btor2Witness.v.beautified theories/Proofs/Btor2Witness.required_vo: theories/Proofs/Btor2Witness.v theories/Model/Btor2Parse.vo
+theories/Proofs/Btor2Witness.vio: theories/Proofs/Btor2Witness.v theories/Model/Btor2Parse.vio
+theories/Proofs/Btor2Witness.vos theories/Proofs/Btor2Witness.vok theories/Proofs/Btor2Witness.required_vos: theories/Proofs/Btor2Witness.v theories/Model/Btor2Parse.vos
 theories/Proofs/EvalImplProofs.vo theories/Proofs/EvalImplProofs.glob theories/Proofs/EvalImplProofs.v.beautified theories/Proofs/EvalImplProofs.required_vo: theories/Proofs/EvalImplProofs.v theories/Model/EvalImpl.vo theories/Proofs/ExprLemmas.vo
 theories/Proofs/EvalImplProofs.vio: theories/Proofs/EvalImplProofs.v theories/Model/EvalImpl.vio theories/Proofs/ExprLemmas.vio
 theories/Proofs/EvalImplProofs.vos theories/Proofs/EvalImplProofs.vok theories/Proofs/EvalImplProofs.required_vos: theories/Proofs/EvalImplProofs.v theories/Model/EvalImpl.vos theories/Proofs/ExprLemmas.vos
@@ -31,3 +37,6 @@ theories/Proofs/ExprLemmas.vos theories/Proofs/ExprLemmas.vok theories/Proofs/Ex
 theories/Props/C06.vo theories/Props/C06.glob theories/Props/C06.v.beautified theories/Props/C06.required_vo: theories/Props/C06.v theories/Model/EvalImpl.vo theories/Proofs/EvalProofs.vo theories/Proofs/EvalImplProofs.vo
 theories/Props/C06.vio: theories/Props/C06.v theories/Model/EvalImpl.vio theories/Proofs/EvalProofs.vio theories/Proofs/EvalImplProofs.vio
 theories/Props/C06.vos theories/Props/C06.vok theories/Props/C06.required_vos: theories/Props/C06.v theories/Model/EvalImpl.vos theories/Proofs/EvalProofs.vos theories/Proofs/EvalImplProofs.vos
+theories/Props/C18.vo theories/Props/C18.glob theories/Props/C18.v.beautified theories/Props/C18.required_vo: theories/Props/C18.v theories/Model/Btor2Parse.vo theories/Proofs/Btor2Witness.vo
+theories/Props/C18.vio: theories/Props/C18.v theories/Model/Btor2Parse.vio theories/Proofs/Btor2Witness.vio
+theories/Props/C18.vos theories/Props/C18.vok theories/Props/C18.required_vos: theories/Props/C18.v theories/Model/Btor2Parse.vos theories/Proofs/Btor2Witness.vos
